@@ -111,6 +111,11 @@ func writeReplay(w *World, r *Result, path, prop string) bool {
 				}
 			}
 		}
+		if sr := determinismReplay(r); sr != "" {
+			fmt.Fprintf(&b, "\nThe obligation is about iteration order. Encoding the same packet repeatedly on the real code gives different bytes (replay aid, not part of the proof):\n%s\nreplay: CONFIRMED on the real code\n", sr)
+			os.WriteFile(path, b.Bytes(), 0o644)
+			return true
+		}
 		if sr := streamReplay(r); sr != "" {
 			fmt.Fprintf(&b, "\nThe failed obligation speaks about the ghost stream (all delivery schedules). A concrete frame and schedule contradicting it on the real code was found by the stream harness (replay aid, not part of the proof):\n%s\nreplay: CONFIRMED on the real code\n", sr)
 			os.WriteFile(path, b.Bytes(), 0o644)
@@ -212,6 +217,11 @@ func extractInput(w *World, vc *VC, ob *Obligation, cond string, kind string) *r
 	if kind == "ensures" && ob.Fn == root {
 		if n, err := parseSpec(ob.Desc); err == nil {
 			c := &goCtx{recv: in.recvName}
+			for _, p := range fn.Params[1:] {
+				if isSliceT(p.Type()) && typeStr(elemOf(p.Type())) == "uint8" {
+					c.dataParam = p.Name()
+				}
+			}
 			s := c.expr(n)
 			if c.bad == "" {
 				in.post, in.postSrc = s, ob.Desc
@@ -442,7 +452,7 @@ func findDecl(vc *VC, prefix string, k int) string {
 
 func (in *replayInput) testSource() string {
 	var b strings.Builder
-	b.WriteString("package mq\n\nimport (\n\t\"fmt\"\n\t\"io\"\n\t\"reflect\"\n\t\"strings\"\n\t\"testing\"\n)\n\nvar _ = io.Discard\nvar _ = reflect.DeepEqual\nvar _ = strings.Contains\n")
+	b.WriteString("package mq\n\nimport (\n\t\"fmt\"\n\t\"io\"\n\t\"reflect\"\n\t\"strings\"\n\t\"testing\"\n\t\"unsafe\"\n)\n\nvar _ = io.Discard\nvar _ = reflect.DeepEqual\nvar _ = strings.Contains\nvar _ = unsafe.Pointer(nil)\n")
 	b.WriteString(replayHelpers)
 	b.WriteString("\nfunc TestVerifReplay(t *testing.T) {\n")
 	dn := in.dataName
@@ -560,20 +570,42 @@ func searchReplay(w *World, r *Result, seed *replayInput) string {
 		return ""
 	}
 	hang := r.Ob.Kind == "decreases"
-	if !hang && !panicKinds[r.Ob.Kind] {
+	post, postSrc := "", ""
+	rn, dn := r.VC.root.Params[0].Name(), r.VC.root.Params[1].Name()
+	if r.Ob.Kind == "ensures" && r.Ob.Fn == root {
+		if n, err := parseSpec(r.Ob.Desc); err == nil {
+			c := &goCtx{recv: rn, dataParam: dn}
+			s := c.expr(n)
+			if c.bad == "" {
+				post, postSrc = s, r.Ob.Desc
+			}
+		}
+		if post == "" {
+			return ""
+		}
+	} else if !hang && !panicKinds[r.Ob.Kind] {
 		return ""
 	}
 	site := ""
 	if r.Ob.Pos.IsValid() {
 		site = fmt.Sprintf("%s:%d", filepath.Base(r.Ob.Pos.Filename), r.Ob.Pos.Line)
 	}
-	if !hang && site == "" {
+	if !hang && site == "" && post == "" {
 		return ""
 	}
+	typeAlias := ""
 	var b strings.Builder
-	b.WriteString("package mq\n\nimport (\n\t\"fmt\"\n\t\"os\"\n\t\"runtime/debug\"\n\t\"strings\"\n\t\"testing\"\n\t\"time\"\n)\n\n")
+	b.WriteString("package mq\n\nimport (\n\t\"fmt\"\n\t\"os\"\n\t\"reflect\"\n\t\"runtime/debug\"\n\t\"strings\"\n\t\"testing\"\n\t\"time\"\n\t\"unsafe\"\n)\n\nvar _ = reflect.DeepEqual\nvar _ = unsafe.Pointer(nil)\n")
+	b.WriteString(replayHelpers)
+	if post != "" {
+		fmt.Fprintf(&b, "\nfunc verifPost(%s, old_%s *%s, %s, old_%s []byte, result error) bool {\n\tresult0 := result\n\t_ = result0\n\treturn %s\n}\n", rn, rn, m[1], dn, dn, post)
+	} else {
+		fmt.Fprintf(&b, "\nfunc verifPost(%s, old_%s *%s, %s, old_%s []byte, result error) bool { return true }\n", rn, rn, m[1], dn, dn)
+	}
+	fmt.Fprintf(&b, "\nconst verifPostSrc = %q\n", postSrc)
 	fmt.Fprintf(&b, "func TestVerifReplay(t *testing.T) {\n\tsite := %q\n\thang := %v\n", site, hang)
 	fmt.Fprintf(&b, "\tmk := []func() *%s{\n\t\tfunc() *%s { return new(%s) },\n", m[1], m[1], m[1])
+	typeAlias = fmt.Sprintf("type verifRecv = %s\n", m[1])
 	// model-seeded receiver
 	fmt.Fprintf(&b, "\t\tfunc() *%s {\n\t\t\tp := new(%s)\n", m[1], m[1])
 	if seed != nil {
@@ -603,7 +635,7 @@ func searchReplay(w *World, r *Result, seed *replayInput) string {
 		fmt.Fprintf(&b, "\tseeds = append(seeds, %#v)\n", seed.data)
 	}
 	b.WriteString(searchBody)
-	src := b.String()
+	src := b.String() + "\n" + typeAlias
 	out, _ := runOverlayTest(src, false)
 	for _, line := range strings.Split(out, "\n") {
 		if strings.HasPrefix(line, "REPLAY-FOUND") {
@@ -619,7 +651,7 @@ const searchBody = `
 		go func() {
 			defer func() {
 				if e := recover(); e != nil {
-					if !hang && strings.Contains(string(debug.Stack()), site) {
+					if !hang && site != "" && strings.Contains(string(debug.Stack()), site) {
 						done <- fmt.Sprint(e)
 						return
 					}
@@ -627,7 +659,15 @@ const searchBody = `
 				}
 			}()
 			p := mk[variant]()
-			p.UnmarshalBinary(append([]byte(nil), data...))
+			oldp := new(verifRecv)
+			*oldp = *p
+			in := append([]byte(nil), data...)
+			oldin := append([]byte(nil), data...)
+			res := p.UnmarshalBinary(in)
+			if !verifPost(p, oldp, in, oldin, res) {
+				done <- "postcondition violated: " + verifPostSrc
+				return
+			}
 			done <- ""
 		}()
 		select {
@@ -695,3 +735,8 @@ const searchBody = `
 	fmt.Println("REPLAY-NOT-FOUND")
 }
 `
+
+func writeFile(path, content string) {
+	os.MkdirAll(filepath.Dir(path), 0o755)
+	os.WriteFile(path, []byte(content), 0o644)
+}
